@@ -21,18 +21,29 @@ module, so every theorem about it fails to build; never a silent skip):
   expressions: names (parameters / locals);  `A @ B`  (matrix·matrix, matrix·vector,
                vector·matrix);  `A + B`, `A - B`, `-A`;  `A.T`, `A.transpose()`, `np.transpose(A)`
                (matrices only);  `inv(A)` where the callee RESOLVES, through the module's
-               top-level imports, to `scipy.linalg.inv` or `numpy.linalg.inv` (square A only);
+               top-level imports and single-assignment aliases (`_invert = scipy.linalg.inv`,
+               `from scipy.linalg import inv as _inv`), to `scipy.linalg.inv` or `numpy.linalg.inv`
+               (square A only);
                calls of other translated functions (resolved the same way; positional or keyword
                arguments; shapes unified with the callee's declared shapes).
+Spelling variants are normalised by tools/py2lean/normalize.py before the tree is built (gen_oem.py):
+`np.matmul(A, B)` / `np.dot(A, B)` / `A.dot(B)` -> `A @ B` (identical for the 1-d / 2-d operands this
+translator admits), `np.add/subtract/negative` -> operators, early returns -> single exit, calls of
+module-level helper functions (incl. `*args` left folds over a fixed number of call-site arguments and
+literal keyword flags) expanded in place, `for` over a literal tuple unrolled.  A local may be assigned
+more than once (later `let`s shadow earlier ones, as in Python).
 Shapes are symbolic and checked: a product with non-matching inner dimensions, a sum of different
 shapes, the inverse of a non-square matrix are refusals ("shape mismatch") — in the real code they
 raise for m ≠ n.
 """
 import ast
+import os
+import sys
 
+sys.path.insert(0, os.path.dirname(os.path.abspath(__file__)))
+import normalize  # noqa: E402
 
-class Refusal(Exception):
-    pass
+Refusal = normalize.Refusal        # one exception type for the pre-passes and the tree builder
 
 
 INV_TARGETS = {"scipy.linalg.inv", "numpy.linalg.inv", "scipy.linalg.basic.inv", "scipy.linalg._basic.inv"}
@@ -66,35 +77,9 @@ class Node:
 
 
 def import_table(tree, module_name):
-    """top-level name -> dotted target it is bound to by an import;  names bound by anything else
-    at module level (def, class, assignment) map to '<module>.<name>' / None"""
-    tab = {}
-    for st in tree.body:
-        if isinstance(st, ast.Import):
-            for a in st.names:
-                if a.asname:
-                    tab[a.asname] = a.name
-                else:
-                    tab[a.name.split(".")[0]] = a.name.split(".")[0]
-        elif isinstance(st, ast.ImportFrom):
-            base = st.module or ""
-            if st.level:
-                parts = module_name.split(".")
-                base = ".".join(parts[:len(parts) - st.level] + ([st.module] if st.module else []))
-            for a in st.names:
-                if a.name == "*":
-                    tab["*"] = base          # star import: names become unresolvable -> refusal when used
-                    continue
-                tab[a.asname or a.name] = f"{base}.{a.name}"
-        elif isinstance(st, (ast.FunctionDef, ast.ClassDef, ast.AsyncFunctionDef)):
-            tab[st.name] = f"{module_name}.{st.name}"
-        elif isinstance(st, (ast.Assign, ast.AugAssign, ast.AnnAssign)):
-            tgts = st.targets if isinstance(st, ast.Assign) else [st.target]
-            for t in tgts:
-                for nm in ast.walk(t):
-                    if isinstance(nm, ast.Name) and nm.id != "__all__":
-                        tab[nm.id] = None    # rebound by an assignment: unresolvable
-    return tab
+    """top-level name -> dotted target it is bound to (imports, defs, single-assignment aliases such as
+    `_invert = scipy.linalg.inv`); names bound by anything else map to None.  See normalize.module_table."""
+    return normalize.module_table(tree, module_name)
 
 
 class Builder:
